@@ -261,9 +261,13 @@ class VizierServicer(vizier_service_pb2_grpc.VizierServiceServicer):
     # Under the study lock, so that the Study cannot disappear between the steps
     # of another call (CreateTrial and SuggestTrials allocate a trial id and then
     # create the trial; on the SQL datastore the trial row would outlive the
-    # Study and show up in a Study created later under the same name).
-    with self._study_name_to_lock[request.name]:
-      self.datastore.delete_study(request.name)
+    # Study and show up in a Study created later under the same name). The same
+    # holds for the operation records that SuggestTrials and
+    # CheckTrialEarlyStoppingState create under the operation lock, which is
+    # taken first, as they do.
+    with self._operation_lock[request.name]:
+      with self._study_name_to_lock[request.name]:
+        self.datastore.delete_study(request.name)
     return empty_pb2.Empty()
 
   @_report_lookup_errors
@@ -789,6 +793,9 @@ class VizierServicer(vizier_service_pb2_grpc.VizierServiceServicer):
     # Don't allow simultaneous SuggestTrial or EarlyStopping calls to be
     # processed.
     with self._operation_lock[study_name]:
+      # The study may have been deleted since the checks above (DeleteStudy
+      # waits for this lock): no operation record is created for it then.
+      self.datastore.load_study(study_name)
       try:
         # Reuse any existing early stopping op, since the Pythia policy may have
         # already signaled this trial to stop.
